@@ -448,4 +448,272 @@ def PdhgP.step (P : PdhgP K V W) (s : PdhgS V W) : PdhgS V W :=
 
 end Pdhg
 
+/-! ## Conjugate gradients (`iterative.py`) -/
+section CG
+variable {K V W : Type}
+
+structure CgP (K V : Type) where
+  op : V → V
+  rhs : V
+  /-- `p.inner(d)` -/
+  inner : V → V → K
+  /-- `r.norm() ** 2` -/
+  nsq : V → K
+
+structure CgS (K V : Type) where
+  x : V
+  r : V
+  p : V
+  d : V
+  sqnormROld : K
+  /-- a `return` was executed -/
+  stopped : Bool
+  log : List V
+
+variable [OfNat K 0] [OfNat K 1] [Neg K] [Div K] [DecidableEq K] [SMul K V] [Add V]
+
+def CgP.init (P : CgP K V) (x0 junk : V) : CgS K V :=
+  let r0 := P.op x0                                  -- r = op(x)
+  let r := lincomb 1 P.rhs (-(1 : K)) r0                   -- r.lincomb(1, rhs, -1, r)
+  let sq := P.nsq r                                  -- sqnorm_r_old = r.norm() ** 2
+  ⟨x0, r, r, junk, sq, sq = 0, []⟩                  -- p = r.copy(); if sqnorm_r_old == 0: return
+
+def CgP.step (P : CgP K V) (s : CgS K V) : CgS K V :=
+  if s.stopped then s else
+  let d := P.op s.p                                  -- op(p, out=d)
+  let ipd := P.inner s.p d                           -- inner_p_d = p.inner(d)
+  if ipd = 0 then { s with d := d, stopped := true } else   -- if inner_p_d == 0.0: return
+  let alpha := s.sqnormROld / ipd
+  let x' := lincomb 1 s.x alpha s.p                  -- x.lincomb(1, x, alpha, p)
+  let r' := lincomb 1 s.r (-alpha) d                 -- r.lincomb(1, r, -alpha, d)
+  let sqNew := P.nsq r'
+  let beta := sqNew / s.sqnormROld
+  let p' := lincomb 1 r' beta s.p                    -- p.lincomb(1, r, beta, p)
+  ⟨x', r', p', d, sqNew, false, s.log ++ [x']⟩
+
+structure CgnP (K V W : Type) where
+  op : V → W
+  /-- `op.derivative(x).adjoint` -/
+  dAdj : V → W → V
+  rhs : W
+  nsqV : V → K
+  nsqW : W → K
+
+structure CgnS (K V W : Type) where
+  x : V
+  d : W
+  p : V
+  s : V
+  q : W
+  sqnormSOld : K
+  stopped : Bool
+  log : List V
+
+variable [SMul K W] [Add W]
+
+def CgnP.init (P : CgnP K V W) (x0 : V) (junk : W) : CgnS K V W :=
+  let d0 := P.op x0                                  -- d = op(x)
+  let d := lincomb 1 P.rhs (-(1 : K)) d0                   -- d.lincomb(1, rhs, -1, d)
+  let p := P.dAdj x0 d                               -- p = op.derivative(x).adjoint(d)
+  ⟨x0, d, p, p, junk, P.nsqV p, false, []⟩           -- s = p.copy(); sqnorm_s_old = s.norm() ** 2
+
+def CgnP.step (P : CgnP K V W) (s : CgnS K V W) : CgnS K V W :=
+  if s.stopped then s else
+  let q := P.op s.p                                  -- op(p, out=q)
+  let sqq := P.nsqW q
+  if sqq = 0 then { s with q := q, stopped := true } else   -- if sqnorm_q == 0.0: return
+  let a := s.sqnormSOld / sqq
+  let x' := lincomb 1 s.x a s.p                      -- x.lincomb(1, x, a, p)
+  let d' := lincomb 1 s.d (-a) q                     -- d.lincomb(1, d, -a, q)
+  let s' := P.dAdj s.p d'                            -- op.derivative(p).adjoint(d, out=s)
+  let sqNew := P.nsqV s'
+  let b := sqNew / s.sqnormSOld
+  let p' := lincomb 1 s' b s.p                       -- p.lincomb(1, s, b, p)
+  ⟨x', d', p', s', q, sqNew, false, s.log ++ [x']⟩
+
+end CG
+
+/-! ## Power method (`oputils.py`) -/
+section Power
+variable {K V W : Type}
+
+structure PowerP (K V W : Type) where
+  /-- `op.adjoint is op` is false: iterate on `A* A` -/
+  op : V → W
+  adj : W → V
+  norm : V → K
+  sqrt : K → K
+  /-- `x_norm == 0` -/
+  isZero : K → Bool
+  /-- `np.isclose(opnorm, opnorm_old, rtol, atol)` -/
+  isClose : K → K → Bool
+
+structure PowerS (K V : Type) where
+  x : V
+  opnorm : K
+  /-- `break` executed -/
+  done : Bool
+  /-- raised `ValueError` -/
+  failed : Bool
+
+variable [OfNat K 1] [Div K] [SMul K V]
+
+/-- `x = xstart.copy(); x_norm = x.norm(); if x_norm == 0: raise; x /= x_norm;
+opnorm = calc_opnorm(x_norm)` -/
+def PowerP.init (P : PowerP K V W) (xstart : V) : PowerS K V :=
+  let n := P.norm xstart
+  if P.isZero n then ⟨xstart, n, false, true⟩
+  else ⟨((1 : K) / n) • xstart, P.sqrt n, false, false⟩
+
+/-- One pass of the loop in the `use_normal` branch (`x /= c` is `(1/c) • x`). -/
+def PowerP.stepNormal (P : PowerP K V W) (s : PowerS K V) : PowerS K V :=
+  if s.done || s.failed then s else
+  let tmp := P.op s.x                                -- op(x, out=tmp)
+  let x1 := P.adj tmp                                -- op.adjoint(tmp, out=x)
+  let n := P.norm x1                                 -- x_norm = x.norm()
+  if P.isZero n then { s with x := x1, failed := true } else
+  let est := P.sqrt n                                -- opnorm = calc_opnorm(x_norm)
+  if P.isClose est s.opnorm then ⟨x1, est, true, false⟩   -- break
+  else ⟨((1 : K) / n) • x1, est, false, false⟩       -- x /= x_norm
+
+/-- `power_method_opnorm(op, xstart, maxiter)` for `op.adjoint is not op`
+(`ncalls = maxiter // 2`); `none` = raises. -/
+def PowerP.run (P : PowerP K V W) (xstart : V) (ncalls : Nat) : Option K :=
+  let s := iter P.stepNormal ncalls (P.init xstart)
+  if s.failed then none else some s.opnorm
+
+/-- The self-adjoint branch (`op.adjoint is op`): iterate on `A`, estimate `‖A x‖`. -/
+structure PowerSelfP (K V : Type) where
+  op : V → V
+  norm : V → K
+  isZero : K → Bool
+  isClose : K → K → Bool
+
+def PowerSelfP.init (P : PowerSelfP K V) (xstart : V) : PowerS K V :=
+  let n := P.norm xstart
+  if P.isZero n then ⟨xstart, n, false, true⟩
+  else ⟨((1 : K) / n) • xstart, n, false, false⟩
+
+def PowerSelfP.step (P : PowerSelfP K V) (s : PowerS K V) : PowerS K V :=
+  if s.done || s.failed then s else
+  let x1 := P.op s.x                                 -- op(x, out=tmp); x, tmp = tmp, x
+  let n := P.norm x1
+  if P.isZero n then { s with x := x1, failed := true } else
+  if P.isClose n s.opnorm then ⟨x1, n, true, false⟩
+  else ⟨((1 : K) / n) • x1, n, false, false⟩
+
+def PowerSelfP.run (P : PowerSelfP K V) (xstart : V) (ncalls : Nat) : Option K :=
+  let s := iter P.step ncalls (P.init xstart)
+  if s.failed then none else some s.opnorm
+
+end Power
+
+/-! ## Douglas–Rachford primal–dual (`douglas_rachford.py`), `l = None`, constant `lam` -/
+section DR
+variable {K V W : Type}
+
+structure DrP (K V W : Type) where
+  m : Nat
+  L : Nat → V → W
+  Ladj : Nat → W → V
+  /-- `f.proximal(tau)` -/
+  proxF : V → V
+  /-- `g[i].convex_conj.proximal(sigma[i])` -/
+  proxGc : Nat → W → W
+  tau : K
+  sigma : Nat → K
+  lam : K
+
+structure DrS (V W : Type) where
+  x : V
+  v : Nat → W
+  /-- the iterate shown to the callback (`p1` after the proximal step) -/
+  p1 : V
+  log : List V
+
+variable [OfNat K 1] [OfNat K 2] [Neg K] [Div K] [SMul K V] [SMul K W] [Add V] [Add W]
+
+/-- `L[0].adjoint(v[0], out=z1); for Li, vi in zip(L[1:], v[1:]): z1 += Li.adjoint(vi)`,
+`sumAdj k = Σ_{i ≤ k} L_i^* v_i` (called with `m - 1`). -/
+def sumAdj (Ladj : Nat → W → V) (v : Nat → W) : Nat → V
+  | 0 => Ladj 0 (v 0)
+  | k + 1 => sumAdj Ladj v k + Ladj (k + 1) (v (k + 1))
+
+/-- First half of the loop body, up to the callback: `(p1, w1, x - lam*p1)`. -/
+def DrP.half (P : DrP K V W) (s : DrS V W) : V × V × V :=
+  let z1 := if P.m = 0 then s.x                                  -- z1.assign(x)
+    else lincomb 1 s.x (-P.tau / 2) (sumAdj P.Ladj s.v (P.m - 1))  -- z1.lincomb(1, x, -tau / 2, z1)
+  let p1 := P.proxF z1                                   -- f.proximal(tau)(z1, out=p1)
+  let w1 := lincomb 2 p1 (-(1 : K)) s.x                        -- w1.lincomb(2, p1, -1, x)
+  let xa := lincomb 1 s.x (-P.lam) p1                    -- x.lincomb(1, x, -lam_k, p1)
+  (p1, w1, xa)
+
+/-- A full (non-final) loop body. -/
+def DrP.step (P : DrP K V W) (zeroV : V) (s : DrS V W) : DrS V W :=
+  let (p1, w1, xa) := P.half s
+  -- p2[i] = prox(v[i] + sigma[i]/2 * L[i](w1)); w2[i] = 2 p2[i] - v[i]
+  let p2 : Nat → W := fun i => P.proxGc i (lincomb 1 (s.v i) (P.sigma i / 2) (P.L i w1))
+  let w2 : Nat → W := fun i => lincomb 2 (p2 i) (-(1 : K)) (s.v i)
+  let q1 := if P.m = 0 then zeroV else sumAdj P.Ladj w2 (P.m - 1)   -- p1 = sum L_i^* w2_i
+  let z1 := lincomb 1 w1 (-P.tau / 2) q1                 -- z1.lincomb(1, w1, -tau / 2, p1)
+  let x' := lincomb 1 xa P.lam z1                        -- x.lincomb(1, x, lam_k, z1)
+  let r1 := lincomb 2 z1 (-(1 : K)) w1                         -- p1.lincomb(2, z1, -1, w1)
+  -- z2i = w2[i] + sigma[i]/2 * L[i](p1); v[i] += lam (z2i - p2[i])  (two lincombs)
+  let v' : Nat → W := fun i =>
+    let z2 := lincomb 1 (w2 i) (P.sigma i / 2) (P.L i r1)
+    lincomb 1 (lincomb 1 (s.v i) P.lam z2) (-P.lam) (p2 i)
+  ⟨x', v', p1, s.log ++ [p1]⟩
+
+/-- The last loop body: callback, then `x.assign(p1); return`. -/
+def DrP.last (P : DrP K V W) (s : DrS V W) : DrS V W :=
+  let (p1, _, _) := P.half s
+  ⟨p1, s.v, p1, s.log ++ [p1]⟩
+
+/-- `douglas_rachford_pd(x, f, g, L, niter, tau, sigma, lam=lam)` -/
+def DrP.run (P : DrP K V W) (zeroV : V) (niter : Nat) (s : DrS V W) : DrS V W :=
+  match niter with
+  | 0 => s
+  | n + 1 => P.last (iter (P.step zeroV) n s)
+
+end DR
+
+/-! ## Forward–backward primal–dual (`forward_backward.py`), `l = None` -/
+section FBPD
+variable {K V W : Type}
+
+structure FbpdP (K V W : Type) where
+  m : Nat
+  L : Nat → V → W
+  Ladj : Nat → W → V
+  /-- `f.proximal(tau)` -/
+  proxF : V → V
+  gradH : V → V
+  /-- `g[i].convex_conj.proximal(sigma[i])` -/
+  proxGc : Nat → W → W
+  tau : K
+  sigma : Nat → K
+
+structure FbpdS (V W : Type) where
+  x : V
+  v : Nat → W
+  y : V
+
+/-- In the code as it exists, `x_old = x` binds a second NAME to the iterate (no copy), so
+after the in-place proximal step `x_old` is the NEW iterate (DESIGN §8, F12). -/
+def fbpdXOldAliased : Bool := true
+
+variable [OfNat K 1] [OfNat K 2] [Neg K] [SMul K V] [SMul K W] [Add V] [Sub V] [Add W]
+
+def FbpdP.step (P : FbpdP K V W) (aliased : Bool) (s : FbpdS V W) : FbpdS V W :=
+  -- tmp_1 = grad_h(x) + sum(Li.adjoint(vi) for Li, vi in zip(L, v))
+  let tmp1 := if P.m = 0 then P.gradH s.x else P.gradH s.x + sumAdj P.Ladj s.v (P.m - 1)
+  let x' := P.proxF (s.x - P.tau • tmp1)                 -- prox_f(tau)(x - tau * tmp_1, out=x)
+  let xOld := if aliased then x' else s.x                -- x_old = x   (alias!)
+  let y := lincomb 2 x' (-(1 : K)) xOld                        -- y.lincomb(2.0, x, -1, x_old)
+  -- prox_cc_g[i](sigma[i])(v[i] + sigma[i] * L[i](y), out=v[i])
+  let v' : Nat → W := fun i => P.proxGc i (s.v i + P.sigma i • P.L i y)
+  ⟨x', v', y⟩
+
+end FBPD
+
 end OdlModel.Solvers
